@@ -56,16 +56,31 @@ def hook_beam(s, rec):
 def case(ctx, case):
     name, n, B, W, seed = case["env"], case["n"], case["B"], case["W"], case["s"]
     env, O, cfg = policies.env_for(name, n)
-    pol = policies.make(case.get("policy", "am"), env, seed=case.get("wseed", 0))
+    # decoding temperature other than 1: given to the policy's constructor or to the call (both documented); the replay below
+    # evaluates the beams with the same setting, so a beam search that scores with another temperature shows up there
+    T, via = float(case.get("temp", 1.0)), case.get("temp_via", "call")
+    pol = policies.make(case.get("policy", "am"), env, seed=case.get("wseed", 0), **(dict(temperature=T) if (via == "ctor" and T != 1.0) else {}))
+    dkw = dict(temperature=T) if (via == "call" and T != 1.0) else {}
     torch.manual_seed(seed)
+    # history: the same policy object has already decoded other batches (a data loader's previous batches), among them one with
+    # the same number of beam rows; nothing of those calls may survive into the observed one
+    for (B2, W2) in case.get("warm") or []:
+        with torch.no_grad():
+            try:
+                pol(env.reset(env.generator(batch_size=[B2])), env, phase="test", decode_type="beam_search", beam_width=W2, select_best=case["select_best"], return_actions=True, **dkw)
+                ctx.count("c13_warmup_calls")
+            except Exception:
+                pass
     td_in = env.generator(batch_size=[B])
     td0 = env.reset(td_in.clone())
     insts = [O.extract(td_in, td0, b, env) for b in range(B)]
-    sig = dict(env=name, select_best=case["select_best"])
+    sig = dict(env=name, select_best=case["select_best"], temp=("1" if T == 1.0 else via), history=bool(case.get("warm")))
     tol = lambda x: 1e-4 * max(1.0, abs(x))
+    if T != 1.0:
+        ctx.count("c13_temperature_cases")
     with torch.no_grad(), PolicyTap(pol, keep_logits=True, on_strategy=hook_beam) as rec:
         try:
-            out = pol(td0.clone(), env, phase="test", decode_type="beam_search", beam_width=W, select_best=case["select_best"], return_actions=True, return_sum_log_likelihood=False)
+            out = pol(td0.clone(), env, phase="test", decode_type="beam_search", beam_width=W, select_best=case["select_best"], return_actions=True, return_sum_log_likelihood=False, **dkw)
         except Exception as e:
             ctx.evaluation()
             ctx.violation(dict(sig, q="beam_raises", exc=type(e).__name__), f"beam search (width {W}, B={B}) raised {type(e).__name__}: {str(e)[:200]}", dict(n=n, B=B, W=W))
@@ -162,18 +177,18 @@ def case(ctx, case):
     tdr = batchify(td0.clone(), W) if R == W * B else None
     if tdr is not None:
         with torch.no_grad():
-            ev = pol(tdr, env, phase="test", actions=beams_a.clone(), return_sum_log_likelihood=False)
+            ev = pol(tdr, env, phase="test", actions=beams_a.clone(), return_sum_log_likelihood=False, **dkw)
         ctx.count("c13_replays", R)
         d = (ev["log_likelihood"][:, 1:].double() - beams_ll[:, 1:].double()).abs()
         if bool((d > 1e-4 + logit_noise(rec)).any()):  # beyond the float32 allowance: decide in float64
             # the same beam search and the same evaluation in double precision: a conditioning effect vanishes (agreement
             # ~1e-9), a wrong parent / back-tracking index does not
             with torch.no_grad(), Float64(pol):
-                o64 = pol(td_to64(td0), env, phase="test", decode_type="beam_search", beam_width=W, select_best=case["select_best"], return_actions=True, return_sum_log_likelihood=False)
+                o64 = pol(td_to64(td0), env, phase="test", decode_type="beam_search", beam_width=W, select_best=case["select_best"], return_actions=True, return_sum_log_likelihood=False, **dkw)
                 a64, l64 = o64["actions"], o64["log_likelihood"]
                 ok64 = None
                 if a64.shape[0] == W * B:
-                    e64 = pol(batchify(td_to64(td0), W), env, phase="test", actions=a64.clone(), return_sum_log_likelihood=False)["log_likelihood"]
+                    e64 = pol(batchify(td_to64(td0), W), env, phase="test", actions=a64.clone(), return_sum_log_likelihood=False, **dkw)["log_likelihood"]
                     L = min(e64.shape[1], l64.shape[1])
                     d64 = (e64[:, 1:L] - l64[:, 1:L]).abs()
                     ok64 = not bool((d64 > 1e-7 * (1 + l64[:, 1:L].abs())).any())
